@@ -562,3 +562,30 @@ Proof.
           | exact (E [1] [4] ltac:(discriminate) E1 E4) | exact (E [2] [3] ltac:(discriminate) E2 E3)
           | exact (E [2] [4] ltac:(discriminate) E2 E4) | exact (E [3] [4] ltac:(discriminate) E3 E4) ].
 Qed.
+
+(* ------------------------------------------------------------------------- *)
+(** * NextRetireTime (repair of simconnids/idle-expired-still-routed) *)
+
+(** After any history the accessor names the earliest pending expiry: it is the time of a
+    waiting entry, no waiting entry is earlier, and it is 0 exactly when nothing waits
+    (expiry times are positive monotonic-clock values). Waking up at that time and calling
+    RemoveRetiredConnIDs removes that entry ([gen_remove_retired_exact]). *)
+Theorem gen_next_retire_earliest i cd l0 ops :
+  let g := gen_run ops (gen_init i cd l0) in
+  (g_toretire g = [] -> gen_next_retire g = 0) /\
+  (g_toretire g <> [] -> exists c, In (gen_next_retire g, c) (g_toretire g)) /\
+  (forall y, In y (g_toretire g) -> gen_next_retire g <= fst y) /\
+  (forall y, In y (g_toretire g) ->
+     ~ In (gen_next_retire g) (map fst (g_toretire (fst (gen_step (GRemoveRetired (gen_next_retire g)) g))))).
+Proof.
+  intros g. pose proof (gen_run_inv ops _ (ginv_init i cd l0)) as (_ & _ & Hs). fold g in Hs.
+  unfold gen_next_retire. destruct (g_toretire g) as [|[t c] r] eqn:E.
+  - repeat split; try reflexivity; try congruence; intros y [].
+  - simpl in Hs. destruct Hs as [Hle Hs]. split; [discriminate|]. split; [intros _; exists c; left; reflexivity|]. split.
+    + intros y [<-|Hy]; simpl; [lia|]. specialize (Hle y Hy). simpl in Hle. exact Hle.
+    + intros y _ Hin. simpl in Hin. unfold gen_remove_retired in Hin. rewrite E in Hin.
+      destruct (remove_retired t ((t, c) :: r) (g_log g)) as [l log] eqn:Er. simpl in Hin.
+      assert (Hsort : tsorted ((t, c) :: r)) by (simpl; auto).
+      destruct (remove_retired_spec _ _ _ _ _ Er Hsort) as (_ & Hgt & _).
+      apply in_map_iff in Hin as (z & Hz & Hin). specialize (Hgt z Hin). lia.
+Qed.
